@@ -37,6 +37,18 @@ CHECKS = {
  "C10": ("exploration", "5 C10", "bounded exhaustive enumeration under catch_unwind with overflow checks and debug assertions",
    "Union of all build spaces (lengths to 8000, all cells, option lattice, groups, short inputs, forced-version neighbourhoods, far-beyond-capacity lengths): build returns Ok or a documented error, never unwinds; subject compiled with overflow checks and debug assertions.",
    "A process abort (as opposed to a panic) is attributed by the supervising parent process; non-termination by a watchdog."),
+ "C07": ("exploration", "5 C07; 4.6", "bounded exhaustive enumeration of block contents on a linearity basis through the hooked division routine",
+   "All 160 generators coefficient by coefficient against prod(x - alpha^i); for each of the 98 block shapes in use: zero block, every single-nonzero-byte block (255 values x every position), all position pairs, dense and zero-run blocks through the real division routine vs R's schoolbook remainder over a bitwise-defined field; the real interleaver for all 160 layouts; API tie-in on v1-v3(6).",
+   "Hook H1 forwards to the crate-private routines. A-LIN: non-linearity confined to >= 3 interacting bytes would escape."),
+ "C08": ("exploration", "5 C08; 4.7", "bounded exhaustive enumeration of all coordinates x all 8 masks x all 40 sizes",
+   "For all 160 (version, level) and several payloads the 8 forced-mask builds and the automatic one are compared at every coordinate: data modules differ exactly where the literal Table 10 predicates disagree, function modules identical, and un-masking with the mask named in each symbol's own format information yields one matrix (implies all 28 pairs).",
+   "Encoding region taken from R's region map."),
+ "C11": ("exploration", "5 C11; 4.8", "bounded exhaustive enumeration of selection instances, candidates observed through hook H2, documented penalty recomputed by the reference model",
+   "Every input of <= 2 bytes, S_len, and extreme payloads for all 160 (version, level): exactly 8 candidates = Table 10 masks on the same placed codewords; the emitted mask is in the argmin of the documented penalty recomputed by R on the recorded candidates (ties accepted, interval on exact 5 % edges); forced mask overrides on S_cell.",
+   "Hook H2 records the candidate as scored. Only argmin membership is compared."),
+ "C16": ("exploration", "5 C16", "bounded exhaustive enumeration incl. the complete single-module basis of synthetic matrices",
+   "to_str() of all S_cell symbols and of synthetic matrices (8 patterns x 40 sizes; one dark/one light module at every coordinate: quick 7 sizes, thorough all 40) is parsed back: line/character counts, alphabet, every module in place, one-module light border.",
+   "The renderer is linear in the modules it reads (each character depends on two modules), so the single-module basis plus dense patterns covers position mix-ups."),
  "C15": ("exploration", "5 C15", "bounded exhaustive enumeration of configurations, computed region map as oracle",
    "module_type() at each of the 477 320 coordinates of the 40 sizes, under all levels/masks/modes and several payloads, equals R's ISO region map; data-label count = 8 x codewords + remainder bits.",
    "Either label accepted where an alignment pattern overlaps a timing line."),
